@@ -13,13 +13,19 @@ Local Open Scope Z_scope.
 (* what the translator reads out of tls_openssl.c (after the real preprocessor) on this run:
    SSL_VERIFY_NONE without callback under `if (conn->tls_trust)`, SSL_VERIFY_PEER with _tls_verify otherwise;
    host flags = NO_PARTIAL_WILDCARDS, reference identity = conn->domain, both unconditional and on the SSL
-   object's own parameters; SSL_set_app_data(ssl, conn); the four return statements of _tls_verify *)
+   object's own parameters; SSL_set_app_data(ssl, conn); the four return statements of _tls_verify; the handler is
+   shown X509_STORE_CTX_get_current_cert (the certificate the error is about); when conn_tls_start failed,
+   _handle_proceedtls_default calls xmpp_disconnect and nothing else (in particular not _auth), conn_established
+   calls conn_disconnect and returns *)
 Theorem tls_source_config_is_expected :
   tls_verify_calls = expected_verify_calls /\
   tls_hostflags_calls = expected_hostflags_calls /\
   tls_host_calls = expected_host_calls /\
   tls_app_data_is_conn = true /\
-  tls_verify_shape = expected_verify_shape.
+  tls_verify_shape = expected_verify_shape /\
+  tls_verify_cert_accessor = CURRENT_CERT /\
+  tls_proceed_failure_calls = expected_proceed_failure_calls /\
+  tls_legacy_failure_calls = expected_legacy_failure_calls.
 Proof. exact Gen_tls_ok. Qed.
 Print Assumptions tls_source_config_is_expected.
 
@@ -43,12 +49,13 @@ Proof. exact host_pinned. Qed.
 Print Assumptions host_is_pinned_with_full_label_wildcards_only.
 
 (* if xmpp_conn_is_secured is ever true (in a connect/disconnect notification or polled), or anything at all
-   is written through the TLS interface, then the trust flag is set, or every chain element OpenSSL flagged was
-   accepted by an installed callback (which includes: no element was flagged) *)
+   is written through the TLS interface, then the trust flag is set, or every certificate OpenSSL flagged was
+   accepted by an installed callback that was asked about that very certificate (which includes: none was flagged) *)
 Theorem secured_implies_verified_or_user_consent :
   forall sc,
     ever_secured (snd (run sc)) = true \/ tls_wire_used (snd (run sc)) = true ->
-    s_trust sc = true \/ forall i, (i < failing (s_stream sc))%nat -> cb_accepts (s_cb sc) i.
+    s_trust sc = true \/
+    forall i cert, nth_error (failing_certs (s_stream sc)) i = Some cert -> cb_accepts (s_cb sc) i cert.
 Proof. exact secured_consent. Qed.
 Print Assumptions secured_implies_verified_or_user_consent.
 
@@ -56,7 +63,7 @@ Print Assumptions secured_implies_verified_or_user_consent.
    reported secured or sent over TLS, no XMPP_CONN_CONNECT, one disconnect *)
 Theorem no_callback_failing_cert_aborts :
   forall sc,
-    s_trust sc = false -> s_cb sc = CbNone -> (exists p, In p (s_stream sc) /\ p <> 1) ->
+    s_trust sc = false -> s_cb sc = CbNone -> (exists e, In e (s_stream sc) /\ fst e <> 1) ->
     ever_secured (snd (run sc)) = false /\ tls_wire_used (snd (run sc)) = false /\
     connected (snd (run sc)) = false /\
     n_disconnects (snd (run sc)) = 1%nat /\ c_state (fst (run sc)) = Disconnected /\
@@ -64,10 +71,11 @@ Theorem no_callback_failing_cert_aborts :
 Proof. exact no_callback_aborts'. Qed.
 Print Assumptions no_callback_failing_cert_aborts.
 
-(* a callback that says 0 to any flagged element aborts as well *)
+(* a callback that says 0 to any flagged certificate aborts as well, whatever it says to the others *)
 Theorem rejecting_callback_aborts :
-  forall sc a d i,
-    s_trust sc = false -> s_cb sc = CbScript a d -> (i < failing (s_stream sc))%nat -> nth i a d = 0 ->
+  forall sc i cert,
+    s_trust sc = false ->
+    nth_error (failing_certs (s_stream sc)) i = Some cert -> user_says (s_cb sc) i cert = Some 0 ->
     ever_secured (snd (run sc)) = false /\ tls_wire_used (snd (run sc)) = false /\
     connected (snd (run sc)) = false /\
     n_disconnects (snd (run sc)) = 1%nat /\ c_state (fst (run sc)) = Disconnected.
@@ -75,7 +83,8 @@ Proof. exact rejecting_callback_aborts. Qed.
 Print Assumptions rejecting_callback_aborts.
 
 (* after tls_start failed (certificate, peer silent, reset ...): never secured, nothing over TLS, no connect event;
-   what leaves the client afterwards is at most one </stream:stream> in the clear (nothing at all on legacy SSL);
+   what leaves the client afterwards is at most one </stream:stream> in the clear (nothing at all on legacy SSL;
+   in particular no <auth/>: the server of the model offers SASL PLAIN before TLS as well);
    exactly one disconnect; the TLS object is gone and the plain interface is back *)
 Theorem failed_handshake_tears_down :
   forall sc,
@@ -113,9 +122,9 @@ Print Assumptions unusable_ca_location_fails_closed.
    connected-and-secured, ever-secured and TLS-used all equal "the handshake completes and the table says yes" *)
 Theorem decision_table_112 :
   length all_cells = 112%nat /\ (forall c, In c all_cells) /\
-  forall c stream hs te after,
+  forall c mandatory stream hs te after,
     In c all_cells -> stream_consistent c stream ->
-    let tr := snd (run (cell_scenario c stream hs te after)) in
+    let tr := snd (run (cell_scenario c mandatory stream hs te after)) in
     connect_secured tr = hs && table_secured c /\
     ever_secured tr = hs && table_secured c /\
     tls_wire_used tr = hs && table_secured c /\
